@@ -28,6 +28,7 @@ type Src struct {
 
 	// origin ref (specification-driven generator, expanded from Seed)
 	Seed     uint64 `json:"seed,omitempty"`
+	Tape     []byte `json:"tape,omitempty"` // decisions replayed before Seed takes over (coverage-guided fuzzing)
 	NOps     int    `json:"nops,omitempty"`    // operations per LZMA chunk (upper bound)
 	NChunks  int    `json:"nchunks,omitempty"` // chunks per block
 	NBlocks  int    `json:"nblocks,omitempty"`
@@ -350,7 +351,7 @@ func ChunksFrom(p *PRNG, sim *ref.LZMA2Sim, nchunks, nops int, feats map[string]
 }
 
 func (s Src) buildRef() (*Built, error) {
-	p := NewPRNG(s.Seed)
+	p := NewTapePRNG(s.Seed, s.Tape)
 	feats := map[string]bool{}
 	b := &Built{}
 	switch s.Fmt {
